@@ -6,6 +6,7 @@ import (
 	"errors"
 	"fmt"
 	"math/big"
+	"regexp"
 
 	"github.com/amzn/ion-go/ion"
 
@@ -159,3 +160,36 @@ func diffKey(d string) string {
 }
 
 func bigOf(i int64) *big.Int { return big.NewInt(i) }
+
+var dollarN = regexp.MustCompile(`^\$[0-9]+$`)
+
+// dollarFamily is the failure family of a written document: "dollarN" if some symbol text in it
+// is shaped like $N (the known binary WriteSymbolFromString defect lives there), else "plain".
+// Shrinking stays inside a family, so a new defect on ordinary text cannot end up at a $N witness.
+func dollarFamily(vals []*rm.Value) string {
+	fam := "plain"
+	var walk func(v *rm.Value)
+	chk := func(s rm.Sym) {
+		if s.HasText && dollarN.MatchString(s.Text) {
+			fam = "dollarN"
+		}
+	}
+	walk = func(v *rm.Value) {
+		for _, a := range v.Annots {
+			chk(a)
+		}
+		if v.Field != nil {
+			chk(*v.Field)
+		}
+		if v.Type == rm.Symbol && !v.Null {
+			chk(v.Sym)
+		}
+		for _, k := range v.Kids {
+			walk(k)
+		}
+	}
+	for _, v := range vals {
+		walk(v)
+	}
+	return fam
+}
